@@ -402,8 +402,11 @@ class ProgGen:
             return self.outline()
         if k == 'save':
             stream = rng.random() < 0.5
-            if stream and self.cur_max <= SAVE_MAX and self.cur_max < U32_MAX - 1:
-                self.cur_max += 1
+            if self.cur_max <= SAVE_MAX:
+                # save raises max_id to the largest object number first (/repo 19ab1a6)
+                self.cur_max = max([self.cur_max] + [i for i, _ in self.ids if i <= SAVE_MAX])
+                if stream and self.cur_max < U32_MAX - 1:
+                    self.cur_max += 1
             return L('save', 'stream' if stream else 'table')
         raise ValueError(k)
 
